@@ -46,6 +46,25 @@ def lib2d_batch(*paths):
         print(str(b.without_pseudoknots()))
 
 
+def transform_batch(*paths):
+    """mmCIF item editing of several files in a row in ONE interpreter."""
+    import hashlib
+    import string
+
+    from rnapolis import transformer
+
+    alphabet = "".join(c for c in string.printable if c not in string.whitespace)
+    for k, path in enumerate(paths):
+        text = open(path).read()
+        print(f"### {k}")
+        out, mapping = transformer.replace_value(text, "atom_site", "auth_asym_id", alphabet)
+        print("replace", hashlib.sha256(out.encode()).hexdigest(), sorted(mapping.items()))
+        out2 = transformer.copy_from_to(text, "atom_site", "label_asym_id", "auth_asym_id")
+        print("copy", hashlib.sha256(out2.encode()).hexdigest())
+        out3, mapping3 = transformer.replace_value(text, "atom_site", "label_seq_id", alphabet)
+        print("replace-seq", hashlib.sha256(out3.encode()).hexdigest(), len(mapping3))
+
+
 def lib3d_batch(*paths):
     from rnapolis.annotator import extract_secondary_structure
     from rnapolis.parser import read_3d_structure
@@ -153,6 +172,8 @@ def main():
         return lib3d(*argv)
     if what == "external_conflicts":
         return external_conflicts(*argv)
+    if what == "transform_batch":
+        return transform_batch(*argv)
     if what == "lib2d_batch":
         return lib2d_batch(*argv)
     if what == "lib3d_batch":
